@@ -29,6 +29,39 @@ fn c06_event_parent_resolution_bounded() {
     assert!(cx.lookup_current().map(|s| s.id().into_u64()) == if root.current == 0 { None } else { Some(root.current) }, "C06.lookup_current.is_the_collectors_current_span");
 }
 
+// the Context entry points for scope walks: span_scope(id) is the scope of span id ITSELF (leaf first), event_scope(ev)
+// is the scope of event_span(ev) - contextual events start at the current span, explicit parents at that parent,
+// explicit roots have no scope
+// BOUND: span tables of 4 spans
+#[kani::proof]
+#[kani::unwind(7)]
+#[kani::stub(core::fmt::Formatter::pad, pad_stub)]
+#[kani::stub(Registry::span_stack, span_stack_stub)]
+fn c06_span_scope_and_event_scope_start_at_the_right_span_bounded() {
+    let mut root = any_table();
+    root.current = nd(); kani::assume(root.current <= VNSPAN as u64);
+    let cx = crate::subscribe::Context::__verif_new(&root);
+    let leaf: u64 = nd(); kani::assume(leaf >= 1 && leaf <= VNSPAN as u64);
+    // span_scope: first element is the span itself, second its parent (or none)
+    let mut it = cx.span_scope(&vspan::Id::from_u64(leaf)).unwrap();
+    assert!(it.next().map(|g| g.id().into_u64()) == Some(leaf), "C06.span_scope.starts_with_the_span_itself");
+    let p = root.parent[leaf as usize];
+    assert!(it.next().map(|g| g.id().into_u64()) == if p == 0 { None } else { Some(p) }, "C06.span_scope.then_its_parent");
+    // event_scope
+    let vs = VMETA.fields().value_set(&[]);
+    let mode: u8 = nd(); kani::assume(mode < 3);
+    let ev = match mode { 0 => tracing_core::Event::new(&VMETA, &vs), 1 => tracing_core::Event::new_child_of(None, &VMETA, &vs), _ => tracing_core::Event::new_child_of(vspan::Id::from_u64(leaf), &VMETA, &vs) };
+    let start = match mode { 0 => root.current, 1 => 0, _ => leaf };
+    match cx.event_scope(&ev) {
+        None => assert!(start == 0, "C06.event_scope.none_only_for_a_root_event_or_no_current_span"),
+        Some(mut sc) => {
+            assert!(start != 0 && sc.next().map(|g| g.id().into_u64()) == Some(start), "C06.event_scope.starts_at_the_events_parent_span");
+            let pp = root.parent[start as usize];
+            assert!(sc.next().map(|g| g.id().into_u64()) == if pp == 0 { None } else { Some(pp) }, "C06.event_scope.then_that_spans_parent");
+        }
+    }
+}
+
 // ---------- Registry::new_span's parent resolution: the `let parent = ...;` statement is extracted from the real function
 // on every run (generator gen_parent_resolution, appended below this file) and run over a recording stand-in for the two
 // registry operations it uses.
